@@ -36,6 +36,7 @@ func c04Schema() (*model.Schema, []*model.TypeRef) {
 		{Name: "nested", Type: model.Named("In2")},
 		{Name: "list", Type: model.ListOf(model.NonNullOf(model.Named("Int")))},
 		{Name: "f64", Type: model.Named("Float64")},
+		{Name: "nnd", Type: model.NonNullOf(model.Named("Int")), HasDefault: true, Default: int64(5)},
 	}})
 	bases := []string{"Int", "Float", "String", "Boolean", "ID", "Int64", "Float64", "E", "In", "In2", "Custom", "Time"}
 	var types []*model.TypeRef
@@ -74,6 +75,7 @@ func c04Pool() []interface{} {
 		obj("req", int64(5), "nested", obj("x", 1.5)), obj("req", int64(5), "nested", obj("y", []interface{}{model.Sym("B")})),
 		obj("req", int64(1), "list", []interface{}{int64(1), nil}), obj("req", int64(4294967297)), obj("req", int64(2), "def", nil), obj("req", int64(2), "e", model.Sym("Z")),
 		obj("x", 2.5), obj("x", 1e300), obj("x", int64(1), "z", int64(12)), obj("x", 1.5, "y", []interface{}{model.Sym("C"), nil}), obj("req", int64(3), "f64", 1e300),
+		obj("req", int64(1), "nnd", nil), obj("req", int64(1), "nnd", int64(9)), obj("req", int64(1), "nnd", "x"), []interface{}{obj("req", int64(2), "nnd", nil)},
 		obj("req", 3.0), obj("req", 3.5), obj("req", "3"), []interface{}{obj("req", int64(1)), obj()}, []interface{}{obj("x", 0.5)},
 	}
 }
